@@ -144,6 +144,63 @@ pub fn replay(v: &Value) -> Outcome {
             }
             o.tag("sentence_parsed");
         }
+        // scanner-state variant: the first terminal is used inline in INITIAL, 'o' enters M2 where the others live
+        // (one primary non-terminal each), the last one returns and the second one is skipped in M2; transition
+        // and skip lists must carry the numbers Gen_Term assigned ('o' takes the number after the first terminal)
+        if ncl == occ.len() && occ.len() >= 2 {
+            let n = occ.len();
+            let idx: Vec<u64> = idx.iter().enumerate().map(|(i, x)| if i == 0 { *x } else { *x + 1 }).collect();
+            let ncl = ncl + 1;
+            let mut par2 = format!(
+                "%start S\n%title \"t\"\n%comment \"c\"\n{}%on Open %enter M2\n%scanner M2 {{\n{}%on T{n} %enter INITIAL\n}}\n%%\nS: {} Open {};\nOpen: 'o';\n",
+                if lr { "%grammar_type 'LALR(1)'\n" } else { "" },
+                if n >= 3 { "%skip T2\n" } else { "" },
+                render_occ(&occ[0]),
+                (2..=n).map(|i| format!("T{i}")).collect::<Vec<_>>().join(" ")
+            );
+            for (i, oc) in occ.iter().enumerate().skip(1) {
+                par2.push_str(&format!("T{}: <M2>{};\n", i + 1, render_occ(oc)));
+            }
+            let built2 = match std::panic::catch_unwind(std::panic::AssertUnwindSafe(|| dynrt::build(&par2, 3))) {
+                Ok(Ok(b)) => b,
+                Ok(Err(_)) => {
+                    o.tag("state_variant_rejected");
+                    continue;
+                }
+                Err(e) => {
+                    o.mismatch(&format!("pipeline-panic/states/{name}"), json!("Ok or Err"), json!({"msg": crate::panic_msg(e), "par": par2}));
+                    continue;
+                }
+            };
+            let Ok(t2) = dynrt::tables_from_source(&built2.parser_source) else { continue };
+            o.evals += 1;
+            o.tag("state_variant");
+            let modes = &t2.scanner.macro_modes;
+            if modes.len() != 2 {
+                o.mismatch(&format!("states/modes/{name}"), json!(2), json!(modes.len()));
+                continue;
+            }
+            let tr = |m: usize| -> Vec<(u64, String)> { modes[m].transitions.iter().map(|(ty, a, _)| (*ty as u64, a.clone())).collect() };
+            if !tr(0).iter().any(|(ty, _)| *ty == idx[0] + 1) || tr(0).len() != 1 {
+                o.mismatch(&format!("states/transition-INITIAL/{name}"), json!({"on": idx[0] + 1}), json!({"got": tr(0), "par": par2}));
+            }
+            if !tr(1).iter().any(|(ty, _)| *ty == idx[n - 1]) || tr(1).len() != 1 {
+                o.mismatch(&format!("states/transition-M2/{name}"), json!({"on": idx[n - 1]}), json!({"got": tr(1), "par": par2}));
+            }
+            // user tokens per mode
+            let user = |m: usize| -> Vec<u64> { let mut v: Vec<u64> = modes[m].tokens.iter().map(|(_, ty, _)| *ty as u64).filter(|ty| *ty >= 5 && (*ty as usize) < 5 + ncl).collect(); v.sort(); v };
+            let mut exp1: Vec<u64> = idx[1..].to_vec();
+            exp1.sort();
+            if user(0) != vec![idx[0], idx[0] + 1] || user(1) != exp1 {
+                o.mismatch(&format!("states/tokens-per-mode/{name}"), json!({"INITIAL": [idx[0], idx[0] + 1], "M2": exp1}), json!({"INITIAL": user(0), "M2": user(1), "par": par2}));
+            }
+            if n >= 3 {
+                let skips: Vec<Vec<u64>> = t2.skip_tokens.iter().map(|m| m.iter().map(|x| *x as u64).collect()).collect();
+                if skips.len() != 2 || !skips[0].is_empty() || skips[1] != vec![idx[1]] {
+                    o.mismatch(&format!("states/skip-list/{name}"), json!([[], [idx[1]]]), json!({"got": skips, "par": par2}));
+                }
+            }
+        }
     }
     o
 }
